@@ -4,6 +4,11 @@
 // Engine E4: store topologies (TSDBStore over a tsdb.DB head, BucketStore over real blocks, ProxyStore in front of
 // both) x external label sets x replica-label lists x selector sets x time ranges; for every case one Series call,
 // one LabelNames call and one LabelValues call per label name seen on the series.
+//
+// The external label sets of a store are not fixed at construction: a running TSDBStore gets new ones with
+// SetExtLset (receive, hashring reload) and a running BucketStore gets new ones when a SyncBlocks finds blocks of another
+// block set. The topologies therefore include HISTORIES of external label sets: the requests of a case are made under
+// every configuration of the history, on one store instance, in order.
 package c07
 
 import (
@@ -13,6 +18,7 @@ import (
 	"math"
 	"path/filepath"
 	"sort"
+	"strings"
 	"sync/atomic"
 	"testing"
 
@@ -59,11 +65,64 @@ type Topology struct {
 	Name string
 	// TSDBStore: external labels (nil = no TSDBStore)
 	TSDB []string
+	// history of the TSDBStore: external label sets installed one after the other with SetExtLset on the running
+	// store. A topology with such a history gets ONE NEW TSDBStore (and proxy) PER CASE: the requests of the case are
+	// made under TSDB, then under every element of TSDBThen, so whatever a store keeps from construction or from its
+	// first answers is in place when the labels change.
+	TSDBThen [][]string
 	// BucketStore: external label set per block set (nil = none); the first set gets blockData+blockData2, others headData
 	Bucket [][]string
-	Lazy   int
-	Proxy  bool
+	// history of the BucketStore: block sets that are uploaded only after the store has synced and answered every
+	// request of the enumeration once (stage 1); then SyncBlocks runs again and every request is made again (stage 2).
+	BucketThen [][]string
+	Lazy       int
+	Proxy      bool
 }
+
+func (tp Topology) tsdbPhases() [][]string {
+	if tp.TSDB == nil {
+		return [][]string{nil}
+	}
+	return append([][]string{tp.TSDB}, tp.TSDBThen...)
+}
+
+func extName(x []string) string {
+	if len(x) == 0 {
+		return "noext"
+	}
+	return strings.Join(x, "")
+}
+
+// external label sets a TSDBStore moves between: none, a plain one, one whose name is also a stored label name, one
+// with a replica label
+var extAlphabet = [][]string{{}, {"e", "1"}, {"a", "z"}, {"e", "1", "r", "0"}}
+
+// historyTopologies: every ordered pair of distinct external label sets of extAlphabet on a TSDBStore, a change of
+// the value only (plain and replica label), a change that is taken back, TSDB histories behind the proxy, and
+// bucket stores whose second block set arrives after the first sync (alone and behind the proxy).
+func historyTopologies() []Topology {
+	var out []Topology
+	for _, a := range extAlphabet {
+		for _, b := range extAlphabet {
+			if extName(a) != extName(b) {
+				out = append(out, Topology{Name: "tsdb-" + extName(a) + "-then-" + extName(b), TSDB: a, TSDBThen: [][]string{b}})
+			}
+		}
+	}
+	out = append(out,
+		Topology{Name: "tsdb-e1-then-e2", TSDB: []string{"e", "1"}, TSDBThen: [][]string{{"e", "2"}}},
+		Topology{Name: "tsdb-e1r0-then-e1r1", TSDB: []string{"e", "1", "r", "0"}, TSDBThen: [][]string{{"e", "1", "r", "1"}}},
+		Topology{Name: "tsdb-e1-then-az-then-e1", TSDB: []string{"e", "1"}, TSDBThen: [][]string{{"a", "z"}, {"e", "1"}}},
+		Topology{Name: "proxy-replicas-tsdb-e1-then-e1r0", Proxy: true, TSDB: []string{"e", "1"}, TSDBThen: [][]string{{"e", "1", "r", "0"}}, Bucket: [][]string{{"e", "1", "r", "1"}}},
+		Topology{Name: "proxy-tsdb-noext-then-az-e1", Proxy: true, TSDB: []string{}, TSDBThen: [][]string{{"a", "z"}}, Bucket: [][]string{{"e", "1"}}, Lazy: 2},
+		Topology{Name: "bucket-e1-then-e2r0", Bucket: [][]string{{"e", "1"}}, BucketThen: [][]string{{"e", "2", "r", "0"}}},
+		Topology{Name: "bucket-e1r0-then-az-lazy", Bucket: [][]string{{"e", "1", "r", "0"}}, BucketThen: [][]string{{"a", "z"}}, Lazy: 2},
+		Topology{Name: "proxy-az-bucket-e1-then-e2r0", Proxy: true, TSDB: []string{"a", "z"}, Bucket: [][]string{{"e", "1"}}, BucketThen: [][]string{{"e", "2", "r", "0"}}},
+	)
+	return out
+}
+
+func allTopologies() []Topology { return append(append([]Topology(nil), topologies...), historyTopologies()...) }
 
 var topologies = []Topology{
 	{Name: "tsdb-noext", TSDB: []string{}},
@@ -116,6 +175,10 @@ type Case struct {
 	Ms   []M      `json:"ms"`
 	MinT int64    `json:"mint"`
 	MaxT int64    `json:"maxt"`
+	// only for topologies with a BucketThen history: 0 = the requests are made before the later block sets exist,
+	// 1 = they are made before (stage 1) and again after the later block sets were uploaded and synced (stage 2).
+	// Topologies with a TSDBThen history run all their phases inside the one case.
+	Phase int `json:"phase,omitempty"`
 }
 
 // proxyClient is what the querier's endpoint set hands to the proxy: the store's own advertisement.
@@ -136,18 +199,27 @@ func (c proxyClient) Addr() (string, bool)                   { return c.name, tr
 func (c proxyClient) Matches(matches []*labels.Matcher) bool { return true }
 
 type built struct {
-	topo   Topology
-	srv    storepb.StoreServer
-	exts   []labels.Labels // every external label set behind this server
-	kind   string
-	closer func()
+	topo Topology
+	kind string
+	u    *universe
+	gw   *gateway // shared by all cases of the topology
+	// the server shared by all cases (topologies without a TSDBThen history); nil otherwise: one instance per case
+	shared *instance
+}
+
+type instance struct {
+	srv  storepb.StoreServer
+	tsdb *store.TSDBStore
 }
 
 type env struct {
 	r     *vlib.R
+	db    *tsdb.DB
+	order []Topology
 	topos map[string]*built
 
 	calls, nonEmpty, errs, namesChecked, valuesChecked, extNames, withDrop atomic.Int64
+	changedAnswers, newExtNames, newExtValues                              atomic.Int64
 }
 
 func zsetsToLabels(zs []labelpb.ZLabelSet) []labels.Labels {
@@ -158,18 +230,52 @@ func zsetsToLabels(zs []labelpb.ZLabelSet) []labels.Labels {
 	return out
 }
 
-func (e *env) gen(thorough bool) iter.Seq[Case] {
+// instantiate builds the servers of a topology in their INITIAL configuration (cheap: structs over the shared
+// tsdb.DB and the shared, already synced BucketStore).
+func (e *env) instantiate(b *built) *instance {
+	in := &instance{}
+	tp := b.topo
+	if tp.TSDB != nil {
+		in.tsdb = store.NewTSDBStore(nil, e.db, component.Receive, lbls(tp.TSDB))
+	}
+	switch {
+	case tp.Proxy:
+		ts, g := in.tsdb, b.gw
+		clients := []store.Client{
+			proxyClient{StoreClient: storepb.ServerAsClient(ts, *uatomic.NewBool(false)), name: "tsdb",
+				lsets: func() []labels.Labels { return zsetsToLabels(ts.LabelSet()) }, timeRng: ts.TimeRange},
+			proxyClient{StoreClient: storepb.ServerAsClient(g.st, *uatomic.NewBool(false)), name: "bucket",
+				lsets: func() []labels.Labels { return zsetsToLabels(g.st.LabelSet()) }, timeRng: g.st.TimeRange},
+		}
+		in.srv = store.NewProxyStore(nil, nil, func() []store.Client { return clients }, component.Query, labels.EmptyLabels(), 0, store.EagerRetrieval)
+	case in.tsdb != nil:
+		in.srv = in.tsdb
+	default:
+		in.srv = b.gw.st
+	}
+	return in
+}
+
+func (e *env) gen(thorough bool, stage int) iter.Seq[Case] {
 	sets := selectorSets(thorough)
 	nd, nr := 5, 5
 	if thorough {
 		nd, nr = len(replicaLists), len(ranges)
 	}
 	return func(yield func(Case) bool) {
-		for _, tp := range topologies {
+		for _, tp := range e.order {
+			grows := len(tp.BucketThen) > 0
+			if stage == 1 && !grows {
+				continue
+			}
+			phase := 0
+			if stage == 2 && grows {
+				phase = 1
+			}
 			for _, drop := range replicaLists[:nd] {
 				for _, ms := range sets {
 					for _, rg := range ranges[:nr] {
-						if !yield(Case{Topo: tp.Name, Drop: drop, Ms: ms, MinT: rg[0], MaxT: rg[1]}) {
+						if !yield(Case{Topo: tp.Name, Drop: drop, Ms: ms, MinT: rg[0], MaxT: rg[1], Phase: phase}) {
 							return
 						}
 					}
@@ -179,29 +285,122 @@ func (e *env) gen(thorough bool) iter.Seq[Case] {
 	}
 }
 
-func (e *env) eval(c Case) {
-	r := e.r
-	ctx := context.Background()
+// phase is one configuration of a history: the external label sets in force and how the store got there.
+type phase struct {
+	key     string          // distinguishes the phases of one case
+	exts    []labels.Labels // every external label set behind the server now
+	first   []labels.Labels // ... in the initial configuration
+	desc    string          // how the store got here
+	sigTail string          // "" in the initial configuration
+}
+
+// eval: stage 1 runs before, stage 2 after the later block sets of the BucketThen topologies were uploaded and synced.
+func (e *env) eval(c Case, stage int) {
 	b, ok := e.topos[c.Topo]
 	if !ok {
 		panic("HARNESS-ERROR unknown topology " + c.Topo)
 	}
-	where := fmt.Sprintf("%s (external labels %v) selectors %v range [%d,%d] without replica labels %v", c.Topo, b.exts, c.Ms, c.MinT, c.MaxT, c.Drop)
-	srv := &seriesServer{ctx: ctx}
-	err := b.srv.Series(&storepb.SeriesRequest{MinTime: c.MinT, MaxTime: c.MaxT, Matchers: pbMatchers(c.Ms), WithoutReplicaLabels: c.Drop,
-		PartialResponseStrategy: storepb.PartialResponseStrategy_ABORT}, srv)
+	tp := b.topo
+	grows := len(tp.BucketThen) > 0
+	if stage == 1 {
+		if !grows {
+			return
+		}
+		c.Phase = 0 // also when a phase-1 case is replayed: its requests were made before the change, too
+	} else if grows && c.Phase == 0 {
+		return // replay of a stage-1 case
+	}
+	in := b.shared
+	if in == nil {
+		in = e.instantiate(b)
+	}
+	var bucketExts, bucketFirst []labels.Labels
+	bucketDesc, bucketTail := "", ""
+	for _, x := range tp.Bucket {
+		bucketExts = append(bucketExts, lbls(x))
+		bucketFirst = append(bucketFirst, lbls(x))
+	}
+	if grows {
+		bucketDesc = fmt.Sprintf("; BucketStore synced with block sets %v only", tp.Bucket)
+		if stage == 2 {
+			for _, x := range tp.BucketThen {
+				bucketExts = append(bucketExts, lbls(x))
+			}
+			bucketDesc = fmt.Sprintf("; BucketStore synced with block sets %v, answered the same requests, then blocks of sets %v were uploaded and SyncBlocks ran again", tp.Bucket, tp.BucketThen)
+			bucketTail = "-after-sync-of-another-block-set"
+		}
+	}
+	tsdbDesc := ""
+	for i, ext := range tp.tsdbPhases() {
+		ph := phase{key: fmt.Sprintf("%d.%d", stage, i), sigTail: bucketTail, desc: bucketDesc}
+		if tp.TSDB != nil {
+			ph.exts, ph.first = append(ph.exts, lbls(ext)), append(ph.first, lbls(tp.TSDB))
+			if len(tp.TSDBThen) > 0 {
+				if i == 0 {
+					tsdbDesc = fmt.Sprintf("; TSDBStore built with %v", lbls(ext))
+				} else {
+					in.tsdb.SetExtLset(lbls(ext))
+					tsdbDesc += fmt.Sprintf(", answered the same requests, then SetExtLset(%v)", lbls(ext))
+					ph.sigTail = "-after-set-ext-lset" + bucketTail
+				}
+			}
+		}
+		ph.exts, ph.first = append(ph.exts, bucketExts...), append(ph.first, bucketFirst...)
+		ph.desc = tsdbDesc + bucketDesc
+		if !e.check(c, b.kind, in.srv, ph) {
+			return
+		}
+	}
+}
+
+func hasName(sets []labels.Labels, name string) bool {
+	for _, x := range sets {
+		if x.Has(name) {
+			return true
+		}
+	}
+	return false
+}
+
+func hasPair(sets []labels.Labels, name, value string) bool {
+	for _, x := range sets {
+		if x.Get(name) == value {
+			return true
+		}
+	}
+	return false
+}
+
+// check makes the Series call and the label calls of case c on srv and compares them; false = a violation was reported.
+func (e *env) check(c Case, kind string, srv storepb.StoreServer, ph phase) (held bool) {
+	r := e.r
+	ctx := context.Background()
+	where := fmt.Sprintf("%s (external labels %v%s) selectors %v range [%d,%d] without replica labels %v", c.Topo, ph.exts, ph.desc, c.Ms, c.MinT, c.MaxT, c.Drop)
+	defer func() {
+		if p := recover(); p != nil {
+			r.Violation(kind+"-panics"+ph.sigTail, fmt.Sprintf("%s: the store panicked: %v", where, p), c)
+			held = false
+		}
+	}()
+	ss := &seriesServer{ctx: ctx}
+	err := srv.Series(&storepb.SeriesRequest{MinTime: c.MinT, MaxTime: c.MaxT, Matchers: pbMatchers(c.Ms), WithoutReplicaLabels: c.Drop,
+		PartialResponseStrategy: storepb.PartialResponseStrategy_ABORT}, ss)
 	e.calls.Add(1)
 	if err != nil {
 		e.errs.Add(1) // e.g. "no matchers specified (excluding external labels)": nothing is returned, nothing to cover
-		return
+		return true
 	}
-	if len(srv.series) == 0 {
-		return
+	if len(ss.series) == 0 {
+		return true
 	}
 	e.nonEmpty.Add(1)
+	changed := ph.sigTail != ""
+	if changed {
+		e.changedAnswers.Add(1)
+	}
 	// label name -> values seen on the returned series
 	seen := map[string]map[string]struct{}{}
-	for _, s := range srv.series {
+	for _, s := range ss.series {
 		for _, l := range s.Labels {
 			if seen[l.Name] == nil {
 				seen[l.Name] = map[string]struct{}{}
@@ -210,12 +409,7 @@ func (e *env) eval(c Case) {
 		}
 	}
 	class := func(name string) string {
-		isExt := false
-		for _, x := range b.exts {
-			if x.Has(name) {
-				isExt = true
-			}
-		}
+		isExt := hasName(ph.exts, name)
 		stored := false
 		for _, d := range [][]SeriesSpec{headData, blockData, blockData2} {
 			for _, s := range d {
@@ -238,12 +432,12 @@ func (e *env) eval(c Case) {
 	}
 	sort.Strings(names)
 
-	ln, err := b.srv.LabelNames(ctx, &storepb.LabelNamesRequest{Start: c.MinT, End: c.MaxT, Matchers: pbMatchers(c.Ms), WithoutReplicaLabels: c.Drop,
+	ln, err := srv.LabelNames(ctx, &storepb.LabelNamesRequest{Start: c.MinT, End: c.MaxT, Matchers: pbMatchers(c.Ms), WithoutReplicaLabels: c.Drop,
 		PartialResponseStrategy: storepb.PartialResponseStrategy_ABORT})
 	e.calls.Add(1)
 	if err != nil {
-		r.Violation(b.kind+"-label-names-fails-where-series-succeeds", fmt.Sprintf("%s: Series returned %d series, LabelNames failed: %v", where, len(srv.series), err), c)
-		return
+		r.Violation(kind+"-label-names-fails-where-series-succeeds"+ph.sigTail, fmt.Sprintf("%s: Series returned %d series, LabelNames failed: %v", where, len(ss.series), err), c)
+		return false
 	}
 	got := map[string]struct{}{}
 	for _, n := range ln.Names {
@@ -253,20 +447,23 @@ func (e *env) eval(c Case) {
 		e.namesChecked.Add(1)
 		if cl := class(n); cl != "stored-label" {
 			e.extNames.Add(1)
+			if changed && !hasName(ph.first, n) {
+				e.newExtNames.Add(1)
+			}
 		}
 		if _, ok := got[n]; !ok {
-			r.Violation(fmt.Sprintf("%s-label-names-misses-%s", b.kind, class(n)),
+			r.Violation(fmt.Sprintf("%s-label-names-misses-%s%s", kind, class(n), ph.sigTail),
 				fmt.Sprintf("%s: Series shows label %q on its series, LabelNames returned %v", where, n, ln.Names), c)
-			return
+			return false
 		}
 	}
 	for _, n := range names {
-		lv, err := b.srv.LabelValues(ctx, &storepb.LabelValuesRequest{Label: n, Start: c.MinT, End: c.MaxT, Matchers: pbMatchers(c.Ms), WithoutReplicaLabels: c.Drop,
+		lv, err := srv.LabelValues(ctx, &storepb.LabelValuesRequest{Label: n, Start: c.MinT, End: c.MaxT, Matchers: pbMatchers(c.Ms), WithoutReplicaLabels: c.Drop,
 			PartialResponseStrategy: storepb.PartialResponseStrategy_ABORT})
 		e.calls.Add(1)
 		if err != nil {
-			r.Violation(b.kind+"-label-values-fails-where-series-succeeds", fmt.Sprintf("%s: LabelValues(%q) failed: %v", where, n, err), c)
-			return
+			r.Violation(kind+"-label-values-fails-where-series-succeeds"+ph.sigTail, fmt.Sprintf("%s: LabelValues(%q) failed: %v", where, n, err), c)
+			return false
 		}
 		gv := map[string]struct{}{}
 		for _, v := range lv.Values {
@@ -279,17 +476,21 @@ func (e *env) eval(c Case) {
 		sort.Strings(vals)
 		for _, v := range vals {
 			e.valuesChecked.Add(1)
+			if changed && hasPair(ph.exts, n, v) && !hasPair(ph.first, n, v) {
+				e.newExtValues.Add(1)
+			}
 			if _, ok := gv[v]; !ok {
-				r.Violation(fmt.Sprintf("%s-label-values-misses-value-of-%s", b.kind, class(n)),
+				r.Violation(fmt.Sprintf("%s-label-values-misses-value-of-%s%s", kind, class(n), ph.sigTail),
 					fmt.Sprintf("%s: Series shows %s=%q, LabelValues(%q) returned %v", where, n, v, n, lv.Values), c)
-				return
+				return false
 			}
 		}
 	}
 	if len(c.Drop) > 0 {
 		e.withDrop.Add(1)
 	}
-	r.Nontrivial(fmt.Sprintf("%s|%v|%v|%d|%d", c.Topo, c.Drop, c.Ms, c.MinT, c.MaxT))
+	r.Nontrivial(fmt.Sprintf("%s|%s|%v|%v|%d|%d", c.Topo, ph.key, c.Drop, c.Ms, c.MinT, c.MaxT))
+	return true
 }
 
 func appendAll(ctx context.Context, db *tsdb.DB, data []SeriesSpec) error {
@@ -325,17 +526,20 @@ func appendAll(ctx context.Context, db *tsdb.DB, data []SeriesSpec) error {
 func TestCheck(t *testing.T) {
 	r := vlib.New(t, "C07")
 	defer r.Finish()
-	r.Rule("14 store topologies (TSDBStore over a tsdb.DB head with external labels {}, {e=1}, {a=z}, {e=1,r=0}; BucketStore over two adjacent blocks per external set {e=1}, {a=z}, {e=1,r=0}, " +
+	r.Rule("14 store topologies with fixed external labels (TSDBStore over a tsdb.DB head with external labels {}, {e=1}, {a=z}, {e=1,r=0}; BucketStore over two adjacent blocks per external set {e=1}, {a=z}, {e=1,r=0}, " +
 		"lazy postings off/on, and over two block sets; ProxyStore over TSDBStore+BucketStore as replicas, with colliding external labels and with an unlabelled TSDB) " +
+		"+ 20 topologies with a HISTORY of external labels (TSDBStore: every ordered pair of distinct sets of {}, {e=1}, {a=z}, {e=1,r=0} installed with SetExtLset on the running store, value-only changes e=1->e=2 and r=0->r=1, " +
+		"a change taken back, two such stores behind the proxy; BucketStore: a second block set {e=2,r=0} / {a=z} uploaded and synced after the store served the first one, alone and behind the proxy) " +
 		"x replica-label lists x all sets of <=2 matchers x time ranges; stored label names e, r, a collide with external/replica labels; " +
-		"per case: Series, LabelNames and one LabelValues per label name seen; non-trivial = distinct cases whose Series answer is non-empty")
-	r.Assume("oracle: names(Series) subset of LabelNames and values(Series, n) subset of LabelValues(n) for identical matchers, range and WithoutReplicaLabels; nothing is asserted about extra names/values",
+		"per case and per configuration of the history: Series, LabelNames and one LabelValues per label name seen; non-trivial = distinct (case, configuration) whose Series answer is non-empty")
+	r.Assume("oracle: names(Series) subset of LabelNames and values(Series, n) subset of LabelValues(n) for identical matchers, range and WithoutReplicaLabels, all three calls made under the same configuration of the store; nothing is asserted about extra names/values",
 		"a Series call that fails (e.g. no matcher besides external ones) returns nothing and is skipped; label calls without any matcher have no equal-selector Series call and are not compared",
 		"proxy calls use the ABORT partial response strategy so that a failing store is an error, not a silent omission",
-		"the proxy's clients advertise the stores' own LabelSet()/TimeRange(), as the endpoint set does from the Info API")
+		"the proxy's clients advertise the stores' own current LabelSet()/TimeRange(), as the endpoint set does from the Info API after its next update",
+		"configuration changes happen between requests, never during one (no request is in flight when SetExtLset / SyncBlocks runs)")
 	ctx := context.Background()
 	root := t.TempDir()
-	e := &env{r: r, topos: map[string]*built{}}
+	e := &env{r: r, topos: map[string]*built{}, order: allTopologies()}
 
 	opts := tsdb.DefaultOptions()
 	opts.MinBlockDuration = 100
@@ -350,18 +554,14 @@ func TestCheck(t *testing.T) {
 	if err := appendAll(ctx, db, headData); err != nil {
 		t.Fatalf("HARNESS-ERROR %v", err)
 	}
+	e.db = db
 
 	unis := map[string]*universe{}
-	for _, tp := range topologies {
+	later := map[*universe][]BlockSpec{} // block sets that arrive between stage 1 and stage 2
+	for _, tp := range e.order {
 		b := &built{topo: tp}
-		var tsdbStore *store.TSDBStore
-		var gw *gateway
-		if tp.TSDB != nil {
-			tsdbStore = store.NewTSDBStore(nil, db, component.Receive, lbls(tp.TSDB))
-			b.exts = append(b.exts, lbls(tp.TSDB))
-		}
 		if tp.Bucket != nil {
-			key := fmt.Sprint(tp.Bucket)
+			key := fmt.Sprint(tp.Bucket, " then ", tp.BucketThen)
 			u, ok := unis[key]
 			if !ok {
 				var specs []BlockSpec
@@ -379,40 +579,66 @@ func TestCheck(t *testing.T) {
 				}
 				defer u.close()
 				unis[key] = u
+				for _, x := range tp.BucketThen {
+					later[u] = append(later[u], BlockSpec{Ext: x, MinT: 0, MaxT: 300, ChunkRange: 100, Series: headData})
+				}
 			}
-			gw, err = newGateway(ctx, u, Config{Sampling: 32, Lazy: tp.Lazy, Est: 1, Batch: 2, Gap: 1}, nil, filepath.Join(root, "hdr-"+u.name), nil)
+			b.u = u
+			b.gw, err = newGateway(ctx, u, Config{Sampling: 32, Lazy: tp.Lazy, Est: 1, Batch: 2, Gap: 1}, nil, filepath.Join(root, "hdr-"+u.name), nil)
 			if err != nil {
 				t.Fatalf("HARNESS-ERROR %v", err)
 			}
-			defer gw.close()
-			for _, x := range tp.Bucket {
-				b.exts = append(b.exts, lbls(x))
-			}
+			defer b.gw.close()
 		}
 		switch {
 		case tp.Proxy:
 			b.kind = "proxy"
-			ts, g := tsdbStore, gw
-			clients := []store.Client{
-				proxyClient{StoreClient: storepb.ServerAsClient(ts, *uatomic.NewBool(false)), name: "tsdb",
-					lsets: func() []labels.Labels { return zsetsToLabels(ts.LabelSet()) }, timeRng: ts.TimeRange},
-				proxyClient{StoreClient: storepb.ServerAsClient(g.st, *uatomic.NewBool(false)), name: "bucket",
-					lsets: func() []labels.Labels { return zsetsToLabels(g.st.LabelSet()) }, timeRng: g.st.TimeRange},
-			}
-			b.srv = store.NewProxyStore(nil, nil, func() []store.Client { return clients }, component.Query, labels.EmptyLabels(), 0, store.EagerRetrieval)
-		case tsdbStore != nil:
+		case tp.TSDB != nil:
 			b.kind = "tsdb"
-			b.srv = tsdbStore
 		default:
 			b.kind = "bucket"
-			b.srv = gw.st
+		}
+		if len(tp.TSDBThen) == 0 {
+			b.shared = e.instantiate(b)
 		}
 		e.topos[tp.Name] = b
 	}
 
-	vlib.ForEach(r, e.gen(r.Thorough()), func(c Case) {
+	// stage 1: the stores whose block sets will grow answer every request in their first configuration
+	var rc Case
+	if r.ReplayCase(&rc) && rc.Phase == 1 {
+		// replay of a stage-2 counter-example: the shared store's history before the change is every stage-1 request
+		// of that topology (of the tier in use), not only the requests of the replayed case
+		for c := range e.gen(r.Thorough(), 1) {
+			if c.Topo == rc.Topo {
+				e.eval(c, 1)
+			}
+		}
+	} else {
+		vlib.ForEach(r, e.gen(r.Thorough(), 1), func(c Case) {
+			r.Sample(c)
+			e.eval(c, 1)
+		})
+	}
+	// the later block sets arrive; every store over such a bucket syncs again
+	for u, specs := range later {
+		for _, sp := range specs {
+			if err := u.add(ctx, root, sp); err != nil {
+				t.Fatalf("HARNESS-ERROR %v", err)
+			}
+		}
+	}
+	for _, tp := range e.order {
+		if b := e.topos[tp.Name]; len(tp.BucketThen) > 0 {
+			if err := b.gw.st.SyncBlocks(ctx); err != nil {
+				t.Fatalf("HARNESS-ERROR SyncBlocks after upload: %v", err)
+			}
+		}
+	}
+	// stage 2: every topology (the grown ones in their second configuration)
+	vlib.ForEach(r, e.gen(r.Thorough(), 2), func(c Case) {
 		r.Sample(c)
-		e.eval(c)
+		e.eval(c, 2)
 	})
 	r.Set("store_calls", e.calls.Load())
 	r.Set("series_calls_with_an_answer", e.nonEmpty.Load())
@@ -421,7 +647,11 @@ func TestCheck(t *testing.T) {
 	r.Set("label_values_checked", e.valuesChecked.Load())
 	r.Set("external_label_names_checked", e.extNames.Load())
 	r.Set("answers_with_replica_labels_dropped", e.withDrop.Load())
-	if !r.Replaying() && (e.nonEmpty.Load() == 0 || e.extNames.Load() == 0 || e.withDrop.Load() == 0) {
+	r.Set("answers_after_a_change_of_external_labels", e.changedAnswers.Load())
+	r.Set("external_label_names_checked_that_the_first_configuration_did_not_have", e.newExtNames.Load())
+	r.Set("external_label_values_checked_that_the_first_configuration_did_not_have", e.newExtValues.Load())
+	if !r.Replaying() && (e.nonEmpty.Load() == 0 || e.extNames.Load() == 0 || e.withDrop.Load() == 0 ||
+		e.changedAnswers.Load() == 0 || e.newExtNames.Load() == 0 || e.newExtValues.Load() == 0) {
 		r.Cap("a class of cases was never observed (see counters)")
 	}
 }
